@@ -119,9 +119,19 @@ EncodeCases == {[k |-> "encode", t |-> t, enc |-> e, pol |-> p] : t \in Texts(2)
 \* bytes produced by one encoding, handed over claiming another
 TransCases == {[k |-> "trans", t |-> t, made |-> m, incoming |-> i, enc |-> e] :
                  t \in Texts(2), m \in {"utf-8", "latin-1", "utf-16"}, i \in Encs, e \in Encs}
+\* decoding under a lenient policy: for ASCII the policies are simple enough to specify --
+\* ignore drops every byte >= 128, replace turns each into U+FFFD -- and the first attempt
+\* then never fails, so the UTF-8 fallback must NOT be taken
+RECURSIVE AsciiLenient(_, _)
+AsciiLenient(b, pol) == IF b = <<>> THEN <<>>
+                        ELSE IF b[1] < 128 THEN <<b[1]>> \o AsciiLenient(Tail(b), pol)
+                        ELSE IF pol = "ignore" THEN AsciiLenient(Tail(b), pol)
+                        ELSE <<65533>> \o AsciiLenient(Tail(b), pol)
+DecPolCases == {[k |-> "decpol", t |-> t, made |-> m, pol |-> p] :
+                  t \in Texts(2), m \in {"utf-8", "latin-1", "utf-16"}, p \in {"ignore", "replace"}}
 TypeCases == {[k |-> "type", fn |-> f, kind |-> kd] : f \in {"safe_decode", "safe_encode", "to_utf8"},
                                                        kd \in {"str", "bytes", "other"}}
-Cases == RoundCases \cup EncodeCases \cup TransCases \cup TypeCases
+Cases == RoundCases \cup EncodeCases \cup TransCases \cup DecPolCases \cup TypeCases
 
 Init == c \in Cases
 Next == FALSE /\ UNCHANGED c
